@@ -6,7 +6,9 @@ import random
 from .refnet import BIN_ONLY, CONST, NARY, UNARY, Net
 
 ALPHABETS = ('plain', 'digits', 'keyword', 'at', 'long')
-KEYWORD_PREFIXES = ('input', 'INPUT', 'output', 'OUTPUT', 'vdd', 'buff', 'not', 'Input_', 'and')
+KEYWORD_PREFIXES = ('input', 'INPUT', 'output', 'OUTPUT', 'vdd', 'buff', 'not', 'Input_', 'and',
+                    # operator names inside a label: DIFF0 contains IFF, SANDY contains AND, KNOT contains NOT ...
+                    'DIFF', 'BIFFY', 'SANDY', 'XORO', 'KNOT', 'ORB', 'NORTH', 'BUFFER', 'GTX', 'LEQ_', 'IFF')
 
 
 DERIVED_SUFFIXES = ('_0', '_1', '_2', '_3', '_n', '_not', '.0', '.1', '_', '_1_1')
